@@ -292,6 +292,9 @@ func (ft *FT) instr(ins ssa.Instruction, st *State, guard Term) {
 	case *ssa.MakeChan:
 		r := ft.allocRef(st)
 		ft.define(x, r)
+		// a new channel is open
+		ft.keySort("CLOSED", arraySort("Int", "Bool"))
+		ft.set(st, "CLOSED", app("store", ft.get(st, "CLOSED"), r, "false"))
 	case *ssa.MakeClosure:
 		r := ft.allocRef(st)
 		ft.define(x, r)
@@ -371,6 +374,23 @@ func (ft *FT) instr(ins ssa.Instruction, st *State, guard Term) {
 			ts = append(ts, t)
 		}
 		ft.env[x] = ts
+		if len(ts) > 0 {
+			// the chosen case is one of the listed ones (or -1, the default, for a non-blocking select)
+			lo := "0"
+			if !x.Blocking {
+				lo = "(- 1)"
+			}
+			ft.assume("true", and(app("<=", lo, ts[0]), app("<", ts[0], num(int64(len(x.States))))))
+		}
+		if !x.Blocking && len(ts) > 0 {
+			// the default case runs only if no communication can proceed; a receive from a closed channel always can
+			for _, sst := range x.States {
+				if sst.Dir == types.RecvOnly {
+					ft.keySort("CLOSED", arraySort("Int", "Bool"))
+					ft.assume(guard, implies(eq(ts[0], "(- 1)"), not(app("select", ft.get(st, "CLOSED"), ft.val(sst.Chan)))))
+				}
+			}
+		}
 	default:
 		ft.errf("unsupported instruction %T: %s", ins, ins)
 		if v, ok := ins.(ssa.Value); ok {
